@@ -23,7 +23,8 @@ func valueToPyObject(value reflect.Value) pyObject {
 		for i := 0; i < value.Len(); i++ {
 			l[i] = pyString(value.Index(i).String())
 		}
-		return l
+		// This list is shared by every package that reads it from CONFIG, so none of them may alter it.
+		return l.Freeze()
 	case reflect.Struct:
 		return pyString(value.Interface().(fmt.Stringer).String())
 	default:
